@@ -129,6 +129,24 @@ def generate(seeds=(1, 2, 3), tier='quick'):
             g.thm_eq(f'{prefix}_vlap_{k}_eq', rv, rv, *trees[i], dot(E[k], L), hyps=hy,
                      what=f'{prefix} vector Laplacian, {k}-component = e_{k} . (Laplacian f, Laplacian g, Laplacian h)')
 
+    # fields given directly in curvilinear coordinates (the numeric replay also uses fields that are affine in a
+    # coordinate, for which autograd returns constant gradients): traced only for the tie, no extra theorems
+    def direct(prefix, names, ranges, opsd):
+        def sc(w):
+            cs = [w.coord(n, *rg) for n, rg in zip(names, ranges)]
+            u = w.fn('u')(*cs)
+            vs = [w.fn(f'v{i}')(*cs) for i in range(3)]
+            return tuple(opsd['grad'](u, *cs)) + (opsd['lap'](u, *cs), opsd['div'](*vs, *cs)) + tuple(opsd['curl'](*vs, *cs)) \
+                + tuple(opsd['vlap'](*vs, *cs))
+        sw, outs, st = tie_check(sc, seeds)
+        stats[f'{prefix}_direct_fields'] = st
+    direct('sph', ['r', 'th', 'ph'], [(0.3, 3.0), (0.2, 2.9), (0.0, 6.2)],
+           dict(grad=ops.spherical_grad, lap=ops.spherical_laplacian, div=ops.spherical_div, curl=ops.spherical_curl,
+                vlap=ops.spherical_vector_laplacian))
+    direct('cyl', ['rho', 'ph', 'z'], [(0.3, 3.0), (0.0, 6.2), (-2.0, 2.0)],
+           dict(grad=ops.cylindrical_grad, lap=ops.cylindrical_laplacian, div=ops.cylindrical_div, curl=ops.cylindrical_curl,
+                vlap=ops.cylindrical_vector_laplacian))
+
     scalar_and_vector('sph', sph_coords, sph_vec,
                       dict(grad=ops.spherical_grad, lap=ops.spherical_laplacian, div=ops.spherical_div,
                            curl=ops.spherical_curl, vlap=ops.spherical_vector_laplacian),
@@ -274,6 +292,52 @@ def search(seed, tier):
         L = [N(lap(e), P) for e in (f, gf, h)]
         for i, o in enumerate(ops.cylindrical_vector_laplacian(*ccomps(), rho, ph, zz)):
             cmp(f'cylindrical_vector_laplacian[{i}]', o, dotn(frame[i], L), info)
+        # fields given directly in curvilinear coordinates (incl. affine in a coordinate): textbook formulas via sympy
+        R, TH, PH, ZZ = sp.symbols('r th ph zz', positive=True)
+        try:
+            a1, a2, a3, a4 = (rng.randint(-3, 3) for _ in range(4))
+            for usym in (a1 * R + a2, a1 * R + sp.sin(TH) * sp.cos(PH), a1 * R ** 2 * sp.cos(TH) + a3 * PH, a2 * TH + a3):
+                fu = sp.lambdify((R, TH, PH), usym, modules=mods)
+                U = lambda: fu(r, th, ph) + 0 * r
+                want = [sp.diff(usym, R), sp.diff(usym, TH) / R, sp.diff(usym, PH) / (R * sp.sin(TH))]
+                ev = lambda e: np.broadcast_to(np.asarray(sp.lambdify((R, TH, PH), e, 'numpy')(r.detach().numpy(), thn.reshape(-1, 1), phn.reshape(-1, 1)), dtype=float), (n, 1))
+                for i, o in enumerate(ops.spherical_grad(U(), r, th, ph)):
+                    cmp(f'spherical_grad[{i}] of the curvilinear field {usym}', o, ev(want[i]), info)
+                lapw = sp.diff(R ** 2 * sp.diff(usym, R), R) / R ** 2 + sp.diff(sp.sin(TH) * sp.diff(usym, TH), TH) / (R ** 2 * sp.sin(TH)) \
+                    + sp.diff(usym, PH, 2) / (R ** 2 * sp.sin(TH) ** 2)
+                cmp(f'spherical_laplacian of the curvilinear field {usym}', ops.spherical_laplacian(U(), r, th, ph), ev(lapw), info)
+            for usym in (a1 * ZZ + a2, a1 * R + a2 * ZZ, a3 * PH + R * ZZ):
+                fu = sp.lambdify((R, PH, ZZ), usym, modules=mods)
+                U = lambda: fu(rho, ph, zz) + 0 * rho
+                ev = lambda e: np.broadcast_to(np.asarray(sp.lambdify((R, PH, ZZ), e, 'numpy')(rho.detach().numpy(), phn.reshape(-1, 1), zz.detach().numpy()), dtype=float), (n, 1))
+                want = [sp.diff(usym, R), sp.diff(usym, PH) / R, sp.diff(usym, ZZ)]
+                for i, o in enumerate(ops.cylindrical_grad(U(), rho, ph, zz)):
+                    cmp(f'cylindrical_grad[{i}] of the curvilinear field {usym}', o, ev(want[i]), info)
+                lapw = sp.diff(usym, R, 2) + sp.diff(usym, R) / R + sp.diff(usym, PH, 2) / R ** 2 + sp.diff(usym, ZZ, 2)
+                cmp(f'cylindrical_laplacian of the curvilinear field {usym}', ops.cylindrical_laplacian(U(), rho, ph, zz), ev(lapw), info)
+        except Exception as e:
+            found.append(dict(error=f'{type(e).__name__}: {e}', where='curvilinear fields'))
+        # conversion helpers: mutual inverses and ranges
+        try:
+            import math
+            x_, y_, z_ = (torch.tensor([[rng.uniform(-2, 2)] for _ in range(n)]) for _ in range(3))
+            rr, tt, pp = ops.cartesian_to_spherical(x_, y_, z_)
+            back = ops.spherical_to_cartesian(rr, tt, pp)
+            for nm, a_, b_ in zip('xyz', back, (x_, y_, z_)):
+                cmp(f'spherical_to_cartesian(cartesian_to_spherical(p)).{nm}', a_, b_.numpy(), dict(p=[x_.tolist(), y_.tolist(), z_.tolist()]))
+            if not (bool((tt >= 0).all()) and bool((tt <= math.pi).all()) and bool((pp > -math.pi - 1e-12).all()) and bool((pp <= math.pi).all())):
+                found.append(dict(op='cartesian_to_spherical ranges', theta=tt.tolist(), phi=pp.tolist()))
+            r2 = torch.tensor([[rng.uniform(0.3, 3)] for _ in range(n)]); t2 = torch.tensor([[rng.uniform(0.2, 2.94)] for _ in range(n)])
+            p2 = torch.tensor([[rng.uniform(-3.1, 3.1)] for _ in range(n)])
+            for nm, a_, b_ in zip(('r', 'theta', 'phi'), ops.cartesian_to_spherical(*ops.spherical_to_cartesian(r2, t2, p2)), (r2, t2, p2)):
+                cmp(f'cartesian_to_spherical(spherical_to_cartesian(q)).{nm}', a_, b_.numpy(), dict(q=[r2.tolist(), t2.tolist(), p2.tolist()]))
+            cr, cp_, cz = ops.cartesian_to_cylindrical(x_, y_, z_)
+            for nm, a_, b_ in zip('xyz', ops.cylindrical_to_cartesian(cr, cp_, cz), (x_, y_, z_)):
+                cmp(f'cylindrical_to_cartesian(cartesian_to_cylindrical(p)).{nm}', a_, b_.numpy(), dict(p=[x_.tolist(), y_.tolist(), z_.tolist()]))
+            for nm, a_, b_ in zip(('rho', 'phi', 'z'), ops.cartesian_to_cylindrical(*ops.cylindrical_to_cartesian(r2, p2, z_)), (r2, p2, z_)):
+                cmp(f'cartesian_to_cylindrical(cylindrical_to_cartesian(q)).{nm}', a_, b_.numpy(), dict(q=[r2.tolist(), p2.tolist(), z_.tolist()]))
+        except Exception as e:
+            found.append(dict(error=f'{type(e).__name__}: {e}', where='conversion helpers'))
         if len(found) >= 3:
             break
     return found
